@@ -699,6 +699,14 @@ func (e *specEnv) evalCall(s *SExpr) T {
 				}
 			}
 		}
+		if len(s.Args) == 1 {
+			// cap(ch) of a channel: the buffer size given to make (chancap)
+			if v := e.eval(s.Args[0]); v.Ty != nil {
+				if _, ok := v.Ty.Underlying().(*types.Chan); ok {
+					return mkMath(app("chancap", v.S))
+				}
+			}
+		}
 		return e.fail("cap(%s): capacity is not tracked for this expression", s.Args[0].String())
 	case "errorsIs":
 		// errorsIs(err, target): the relation the executable errors.Is(err, target) is modelled by
